@@ -112,4 +112,24 @@ mod verif_witness {
         let b = extract_over_hyper(data.chunks(700).map(|c| c.to_vec()).collect(), None, BodySizeLimit::Disabled).await.expect("no limit: no size error");
         assert_eq!(&b.bytes[..], &data[..]);
     }
+    /// json./form.value_is_the_deserialisation_of_exactly_the_buffered_bytes: the typed extractors see the buffered bytes,
+    /// and nothing else.
+    #[tokio::test]
+    async fn typed_extractors_parse_exactly_the_buffered_bytes() {
+        use crate::request::body::{BodySizeLimit, JsonBody, UrlEncodedBody};
+        #[derive(serde::Deserialize, Debug, PartialEq)] struct Doc { a: u32, b: String }
+        let mut head = head(None);
+        head.headers.insert(http::header::CONTENT_TYPE, "application/json".parse().unwrap());
+        let json = br#"{"a": 7, "b": "seven"}"#.to_vec();
+        for chunk in [1usize, 5, 64] {
+            let frames: Vec<Vec<u8>> = json.chunks(chunk).map(|c| c.to_vec()).collect();
+            let b = extract_over_hyper(frames, None, BodySizeLimit::Enabled { max_size: 64.bytes() }).await.unwrap();
+            assert_eq!(JsonBody::<Doc>::extract(&head, &b).unwrap().0, Doc { a: 7, b: "seven".into() });
+            let frames: Vec<Vec<u8>> = json.chunks(chunk).map(|c| c.to_vec()).collect();
+            assert!(extract_over_hyper(frames, None, BodySizeLimit::Enabled { max_size: (json.len() as u64 - 1).bytes() }).await.is_err(), "one byte over the limit: no BufferedBody, hence no JsonBody");
+        }
+        head.headers.insert(http::header::CONTENT_TYPE, "application/x-www-form-urlencoded".parse().unwrap());
+        let form = BufferedBody { bytes: Bytes::from_static(b"a=7&b=seven") };
+        assert_eq!(UrlEncodedBody::<Doc>::extract(&head, &form).unwrap().0, Doc { a: 7, b: "seven".into() });
+    }
 }
